@@ -18,6 +18,9 @@ import Kvass.Proofs.LoopSettle
 import Kvass.Proofs.LoopSettle2
 import Kvass.Proofs.LoopPlace
 import Kvass.Proofs.LoopStay
+import Kvass.Proofs.LoopFaulty
+import Kvass.Proofs.LoopScrapes
+import Kvass.Proofs.LoopPos
 
 namespace Kvass.Props.C06
 open Kvass Kvass.Coord Kvass.Spec
@@ -542,5 +545,247 @@ example : Loop.Settled (fun x r => x * r / 10) exEnv exMove := by
     left
     rw [hinf]
     decide
+
+/-! ### under faults, and along whole histories -/
+
+/-- **none becomes unscraped — under faults.**  One step of the closed loop with *any* fault pattern
+    (shards not ready, status or runtime reads failing, configuration out of sync, updates lost),
+    with `ChangeScale` working or failing, the coordinator crashing or not: a discovered target that
+    a running sidecar holds before the step is held by a running sidecar after it.  Hypotheses: what
+    every sidecar state satisfies (one entry per hash, no idle-since time while targets are assigned)
+    and a current size within max-shard. -/
+theorem C06_step_keep_under_faults (swr : Swr) (env : Loop.Env) (w : Loop.World) (sc : Sched)
+    (F : List Loop.Fault) (b : Bool)
+    (hrep : w.replicas ≤ w.shards.length)
+    (hnd : ∀ sh ∈ w.running, (Loop.statusOf sh).keys.Nodup)
+    (hidle : ∀ sh ∈ w.running, Sidecar.IdleInv sh.sc) (hmax : (w.replicas : Int) ≤ env.opt.maxShard)
+    {i : Nat} {sh : Loop.Shard} {h : Hash} (hrun : w.running[i]? = some sh)
+    (hr : (Loop.statusOf sh).has h = true) (ha : h ∈ w.active) :
+    ∃ (d : Nat) (shd : Loop.Shard), d < (Loop.step swr env w (.cycle sc F b)).replicas ∧
+      (Loop.step swr env w (.cycle sc F b)).shards[d]? = some shd ∧ (Loop.statusOf shd).has h = true :=
+  Loop.step_keep_f swr env w sc F b hrep hnd hidle hmax hrun hr ha
+
+/-- **C06 "none stays unscraped", C05 "no interval in which no shard scrapes it": every history.**
+    From any world that meets the invariant `WInv` (kept by every operation below, and true of freshly
+    started sidecars), along every sequence — of any length, in any order — of coordination cycles
+    with any faults, scrapes with any result, sidecar restarts and discovery changes that keep the
+    target: a discovered target held by a running sidecar at the start is held by a running sidecar
+    in the state reached.  (Since every prefix of such a history is such a history, in every state
+    on the way.)  Not covered: assignments written to a sidecar from outside and external resizing
+    of the StatefulSet. -/
+theorem C06_never_unscraped (swr : Swr) (env : Loop.Env) (hmm : env.opt.minShard ≤ env.opt.maxShard) (h : Hash)
+    (ops : List Loop.Op) (w : Loop.World) (hops : ∀ op ∈ ops, Loop.benign h op = true)
+    (hw : Loop.WInv env w) (ha : h ∈ w.active) (hh : Loop.Held w h) :
+    Loop.WInv env (Loop.run swr env w ops) ∧ h ∈ (Loop.run swr env w ops).active ∧
+      Loop.Held (Loop.run swr env w ops) h :=
+  Loop.run_keep swr env hmm h ops w hops hw ha hh
+
+/-- the invariant holds of freshly started sidecars and is kept by cycles (any faults), scrapes,
+    restarts and discovery changes -/
+theorem C06_world_invariant (swr : Swr) (env : Loop.Env) (hmm : env.opt.minShard ≤ env.opt.maxShard)
+    (n : Nat) (active : List Hash) (explore : AL St) (hn : (n : Int) ≤ env.opt.maxShard) (ops : List Loop.Op)
+    (hops : ∀ op ∈ ops, (match op with | .update _ _ => false | .setReplicas _ => false | _ => true) = true) :
+    Loop.WInv env (Loop.run swr env
+      { shards := List.replicate n Loop.freshShard, replicas := n, active := active, explore := explore } ops) :=
+  Loop.run_winv swr env hmm ops _ hops (Loop.winv_fresh env n active explore hn)
+
+/-- non-vacuity: two fresh sidecars, a first cycle places target 7; then a history with an unready
+    shard, restarts, a lost update with failing `ChangeScale`, failing reads, failing scrapes and a
+    discovery change — the hypotheses of `C06_never_unscraped` hold, and at the end shard 0 holds 7 -/
+def hEnv : Loop.Env := { opt := ⟨0, 1000, 5, 1, false, false⟩, maxIdle := 3 }
+def hW0 : Loop.World :=
+  { shards := List.replicate 2 Loop.freshShard, replicas := 2, active := [7], explore := [(7, ⟨.good, 10, 10, .normal, 0⟩)] }
+def hPre : List Loop.Op := [.cycle { assign := [7] } [] false]
+def hHist : List Loop.Op :=
+  [.scrape 0 7 (some (10, 12)), .scrape 1 7 (some (10, 12)),
+   .cycle {} [⟨true, false, false, false, false⟩, {}] false,
+   .restart 0, .restart 1,
+   .cycle {} [{}, ⟨false, false, false, false, true⟩] true,
+   .scrape 0 7 none, .scrape 1 7 none,
+   .cycle {} [⟨false, true, false, false, false⟩, ⟨false, false, true, false, false⟩] false,
+   .discover [7, 8] [(8, ⟨.good, 5, 5, .normal, 0⟩)], .cycle { assign := [7, 8] } [] false]
+
+example : Loop.Held (Loop.run (fun x r => x * r / 10) hEnv (Loop.run (fun x r => x * r / 10) hEnv hW0 hPre) hHist) 7 := by
+  have hw1 : Loop.WInv hEnv (Loop.run (fun x r => x * r / 10) hEnv hW0 hPre) :=
+    C06_world_invariant _ hEnv (by decide) 2 [7] _ (by decide) hPre (by decide)
+  have hheld : Loop.Held (Loop.run (fun x r => x * r / 10) hEnv hW0 hPre) 7 :=
+    ⟨0, (Loop.run (fun x r => x * r / 10) hEnv hW0 hPre).running[0]'(by decide), List.getElem?_eq_getElem _, by decide⟩
+  exact (C06_never_unscraped _ hEnv (by decide) 7 hHist _ (by decide) hw1 (by decide) hheld).2.2
+
+example : ((Loop.run (fun x r => x * r / 10) hEnv (Loop.run (fun x r => x * r / 10) hEnv hW0 hPre) hHist).shards.map
+    fun sh => (Loop.statusOf sh).map fun p => (p.1, p.2.state, p.2.times)) =
+    [[(7, .normal, 1), (8, .normal, 0)], []] := by decide
+
+/-! ### bounded recovery, young copies included -/
+
+/-- **C06, recovery within a bounded number of cycles and scrapes.**  From a world with the shape of
+    a settled one (`Loop.Shape2`: every target on at most two running sidecars, and then as source and
+    destination of a move or twice in normal state; no scale-down; size within [min, max]) — any
+    mixture of lost hand-overs, pending hand-overs and duplicates, *however few scrapes the copies
+    have seen* — three scrapes of every held target on every running sidecar (any order, any results,
+    any further scrapes) followed by one fault-free cycle lead to the converged state of C03: the same
+    StatefulSet size, every reported target in normal state, none reported twice, and every target
+    that was reported at the start still reported.  The loads after the scrapes must be calm and
+    every discovered target held or unplaceable (hypotheses on the world after the scrapes, since
+    scrapes change the series values). -/
+theorem C06_bounded_recovery (swr : Swr) (env : Loop.Env) (w : Loop.World) (ops : List Loop.Op) (sc : Sched)
+    (hs : Loop.Shape2 env w) (hall : ∀ op ∈ ops, Loop.isScrape op = true)
+    (h3 : ∀ (i : Nat) (sh : Loop.Shard) (h : Hash), w.running[i]? = some sh → (Loop.statusOf sh).has h = true →
+      3 ≤ Loop.scrapeCount ops i h)
+    (hcalm : env.opt.disableAlleviate = true ∨
+      CalmSS swr env.opt (infos0 (Loop.inputOf env (Loop.run swr env w ops) [] false)))
+    (hplaced : ∀ h ∈ w.active,
+      (scrapingSetOf (infos0 (Loop.inputOf env (Loop.run swr env w ops) [] false))).contains h = true ∨
+      Gen.assignSkip (globalOf (infos0 (Loop.inputOf env (Loop.run swr env w ops) [] false)) w.explore h) = true ∨
+      Gen.tooBig env.opt (globalOf (infos0 (Loop.inputOf env (Loop.run swr env w ops) [] false)) w.explore h) = true) :
+    (Loop.run swr env w (ops ++ [.cycle sc [] false])).replicas = w.replicas ∧
+    (∀ (i : Nat) (sh' : Loop.Shard) (h : Hash) (v : St), i < w.replicas →
+      (Loop.run swr env w (ops ++ [.cycle sc [] false])).shards[i]? = some sh' →
+      (Loop.statusOf sh').get h = some v → v.state = .normal) ∧
+    (∀ (i j : Nat) (shi shj : Loop.Shard) (h : Hash), i < w.replicas → j < w.replicas → i ≠ j →
+      (Loop.run swr env w (ops ++ [.cycle sc [] false])).shards[i]? = some shi →
+      (Loop.run swr env w (ops ++ [.cycle sc [] false])).shards[j]? = some shj →
+      (Loop.statusOf shi).has h = true → (Loop.statusOf shj).has h = true → False) ∧
+    (∀ (i : Nat) (sh : Loop.Shard) (h : Hash), w.running[i]? = some sh → (Loop.statusOf sh).has h = true →
+      ∃ (d : Nat) (shd : Loop.Shard), d < w.replicas ∧
+        (Loop.run swr env w (ops ++ [.cycle sc [] false])).shards[d]? = some shd ∧ (Loop.statusOf shd).has h = true) :=
+  Loop.recovers_after_scrapes swr env w ops sc hs hall h3 hcalm hplaced
+
+/-- scrapes only count: same holders, same states, counters advanced by the number of scrapes -/
+theorem C06_scrapes_only_count (swr : Swr) (env : Loop.Env) (ops : List Loop.Op) (w : Loop.World)
+    (hall : ∀ op ∈ ops, Loop.isScrape op = true) :
+    (Loop.run swr env w ops).replicas = w.replicas ∧ (Loop.run swr env w ops).active = w.active ∧
+    (Loop.run swr env w ops).explore = w.explore ∧ (Loop.run swr env w ops).shards.length = w.shards.length ∧
+    ∀ (i : Nat) (sh : Loop.Shard), w.running[i]? = some sh →
+      ∃ sh', (Loop.run swr env w ops).running[i]? = some sh' ∧ Loop.ScrRel (Loop.scrapeCount ops i) sh sh' :=
+  Loop.run_scrapes swr env ops w hall
+
+/-- non-vacuity: a hand-over that has just begun (no scrape yet on either side) and, on the same two
+    shards, a duplicate in normal state with one scrape each -/
+def exYoung : Loop.World :=
+  { shards := [⟨{ targets := [⟨1, 10, 10, .inTransfer, 1⟩, ⟨2, 10, 10, .normal, 0⟩],
+                   status := [(1, { health := .good, series := 10, total := 10, state := .inTransfer, times := 0 }),
+                              (2, { health := .good, series := 10, total := 10, state := .normal, times := 1 })],
+                   idleAt := none }, 7⟩,
+               ⟨{ targets := [⟨1, 10, 10, .normal, 1⟩, ⟨2, 10, 10, .normal, 0⟩],
+                   status := [(1, { health := .unknown, series := 10, total := 0, state := .normal, times := 0 }),
+                              (2, { health := .good, series := 10, total := 10, state := .normal, times := 1 })],
+                   idleAt := none }, 6⟩],
+    replicas := 2, active := [1, 2], explore := [] }
+def exYoungOps : List Loop.Op :=
+  [.scrape 0 1 (some (10, 10)), .scrape 1 1 (some (10, 10)), .scrape 0 2 (some (10, 10)), .scrape 1 2 none,
+   .scrape 0 1 (some (10, 10)), .scrape 1 1 (some (10, 10)), .scrape 0 2 (some (10, 10)), .scrape 1 2 (some (10, 10)),
+   .scrape 0 1 none, .scrape 1 1 (some (10, 10)), .scrape 0 2 (some (10, 10)), .scrape 1 2 (some (10, 10))]
+
+/-- a cycle before the scrapes changes nothing (the copies are young), after them it repairs both -/
+example : ((Loop.run (fun x r => x * r / 10) exEnv exYoung [.cycle {} [] false]).shards.map
+      fun sh => (Loop.statusOf sh).map fun p => (p.1, p.2.state)) =
+      [[(1, .inTransfer), (2, .normal)], [(1, .normal), (2, .normal)]] ∧
+    ((Loop.run (fun x r => x * r / 10) exEnv exYoung (exYoungOps ++ [.cycle {} [] false])).shards.map
+      fun sh => (Loop.statusOf sh).map fun p => (p.1, p.2.state)) = [[(2, .normal)], [(1, .normal)]] := by
+  decide
+
+example : (∀ op ∈ exYoungOps, Loop.isScrape op = true) ∧
+    (∀ i < 2, ∀ h ∈ [1, 2], 3 ≤ Loop.scrapeCount exYoungOps i h) ∧ exEnv.opt.disableAlleviate = true := by decide
+
+/-- the example world has the shape the theorem asks for -/
+example : Loop.Shape2 exEnv exYoung := by
+  have hrun : exYoung.running = exYoung.shards := by rfl
+  have hget : ∀ (i : Nat) (sh : Loop.Shard), exYoung.running[i]? = some sh →
+      (i = 0 ∧ sh = exYoung.shards[0]!) ∨ (i = 1 ∧ sh = exYoung.shards[1]!) := by
+    intro i sh hi
+    rw [hrun] at hi
+    match i with
+    | 0 => left; simp [exYoung] at hi ⊢; exact hi.symm
+    | 1 => right; simp [exYoung] at hi ⊢; exact hi.symm
+    | i + 2 => simp [exYoung] at hi
+  have hst : ∀ (i : Nat) (sh : Loop.Shard) (h : Hash) (v : St), exYoung.running[i]? = some sh →
+      (Loop.statusOf sh).get h = some v → (h = 1 ∨ h = 2) ∧ (v.state = .normal ∨ (i = 0 ∧ h = 1 ∧ v.state = .inTransfer)) ∧
+        (i = 1 → v.state = .normal) := by
+    intro i sh h v hi hv
+    rcases hget i sh hi with ⟨rfl, rfl⟩ | ⟨rfl, rfl⟩
+    · simp [exYoung, Loop.statusOf, AL.get] at hv
+      split at hv
+      · rename_i e; subst e; cases hv; simp [Loop.stOf]
+      · split at hv
+        · rename_i e; subst e; cases hv; simp [Loop.stOf]
+        · cases hv
+    · simp [exYoung, Loop.statusOf, AL.get] at hv
+      split at hv
+      · rename_i e; subst e; cases hv; simp [Loop.stOf]
+      · split at hv
+        · rename_i e; subst e; cases hv; simp [Loop.stOf]
+        · cases hv
+  refine ⟨by decide, ?_, ?_, ?_, ?_, by decide, by decide, by decide⟩
+  · intro sh hm
+    simp [exYoung] at hm
+    rcases hm with rfl | rfl <;> decide
+  · intro i j shi shj h vi vj hi hj hij hvi hvj
+    obtain ⟨_, si, ni⟩ := hst i shi h vi hi hvi
+    obtain ⟨_, sj, nj⟩ := hst j shj h vj hj hvj
+    rcases si with si | ⟨i0, _, si⟩
+    · rcases sj with sj | ⟨j0, _, sj⟩
+      · exact Or.inr (Or.inr ⟨si, sj⟩)
+      · exact Or.inr (Or.inl ⟨sj, si⟩)
+    · rcases sj with sj | ⟨j0, _, sj⟩
+      · exact Or.inl ⟨si, sj⟩
+      · exact absurd (i0.trans j0.symm) hij
+  · intro i j k shi shj shk h hi hj hk _ _ _
+    rcases hget i shi hi with ⟨rfl, _⟩ | ⟨rfl, _⟩ <;> rcases hget j shj hj with ⟨rfl, _⟩ | ⟨rfl, _⟩ <;>
+      rcases hget k shk hk with ⟨rfl, _⟩ | ⟨rfl, _⟩ <;> simp
+  · intro sh hm h v hv
+    obtain ⟨i, hi⟩ := List.getElem?_of_mem hm
+    rcases (hst i sh h v hi hv).1 with rfl | rfl <;> simp [exYoung]
+
+/-! ### placement within a bounded number of cycles (C03 "enough allowed shards", C06 "none stays unscraped") -/
+
+/-- **C03 / C06: an eligible target is placed within a bounded number of cycles.**  `w` is any world
+    meeting the invariant with sizes (`Loop.WPos`: what `WInv` says, and no negative size in any
+    sidecar or estimate — true of freshly started sidecars, kept by cycles with any faults, scrapes with
+    non-negative counts and restarts: `Loop.wpos_fresh`, `Loop.step_wpos`).  A discovered target that
+    the explorer probed successfully, that does not exceed a limit alone and has a non-zero size is,
+    after `max-shard − current + 1` fault-free cycles whose schedules visit every discovered target,
+    held by a running sidecar — unless at some point on the way max-shard was reached with the target
+    still unplaced (then there were not "enough allowed shards").  Each cycle either places it or adds a
+    shard (C03's scale-up clause through the delivered requests and the resize), once placed it stays
+    placed (`C06_never_unscraped`), and the coordinator never crashes on what sidecars report. -/
+theorem C06_placed_within_bound (swr : Swr) (env : Loop.Env) (hmm : env.opt.minShard ≤ env.opt.maxShard)
+    (hmp : 0 < env.opt.maxProc) (hmh : 0 ≤ env.opt.maxHead) (h : Hash) (e : St)
+    (hgood : Gen.assignSkip e = false) (hbig : Gen.tooBig env.opt e = false) (hsz : 0 < e.series + e.total)
+    (scs : List Sched) (w : Loop.World) (hw : Loop.WPos env w) (ha : h ∈ w.active) (he : w.explore.get h = some e)
+    (hfull : ∀ sc ∈ scs, ∀ k ∈ w.active, k ∈ sc.assign)
+    (hlen : env.opt.maxShard < (w.replicas : Int) + scs.length) :
+    Loop.Held (Loop.cycles swr env w scs) h ∨
+      ∃ pre, pre <+: scs ∧ ((Loop.cycles swr env w pre).replicas : Int) = env.opt.maxShard ∧
+        ¬ Loop.Held (Loop.cycles swr env w pre) h :=
+  Loop.placed_within_bound swr env hmm hmp hmh h e hgood hbig hsz scs w hw ha he hfull hlen
+
+/-- the step-by-step form: held, or one more shard per cycle, or max-shard reached unplaced -/
+theorem C06_placed_within (swr : Swr) (env : Loop.Env) (hmm : env.opt.minShard ≤ env.opt.maxShard)
+    (hmp : 0 < env.opt.maxProc) (hmh : 0 ≤ env.opt.maxHead) (h : Hash) (e : St)
+    (hgood : Gen.assignSkip e = false) (hbig : Gen.tooBig env.opt e = false) (hsz : 0 < e.series + e.total)
+    (scs : List Sched) (w : Loop.World) (hw : Loop.WPos env w) (ha : h ∈ w.active) (he : w.explore.get h = some e)
+    (hfull : ∀ sc ∈ scs, ∀ k ∈ w.active, k ∈ sc.assign) :
+    Loop.Held (Loop.cycles swr env w scs) h ∨ w.replicas + scs.length ≤ (Loop.cycles swr env w scs).replicas ∨
+      ∃ pre, pre <+: scs ∧ ((Loop.cycles swr env w pre).replicas : Int) = env.opt.maxShard ∧
+        ¬ Loop.Held (Loop.cycles swr env w pre) h :=
+  Loop.placed_within swr env hmm hmp hmh h e hgood hbig hsz scs w hw ha he hfull
+
+/-- non-vacuity: one fresh sidecar, head limit 100, targets of 60 and 70 series: the first cycle places
+    the first and asks for a second shard, the second cycle places the other one there -/
+def pEnv : Loop.Env := { opt := ⟨100, 1000, 3, 1, false, false⟩, maxIdle := 3 }
+def pW0 : Loop.World :=
+  { shards := List.replicate 1 Loop.freshShard, replicas := 1, active := [1, 2],
+    explore := [(1, ⟨.good, 60, 60, .normal, 0⟩), (2, ⟨.good, 70, 70, .normal, 0⟩)] }
+
+example : Loop.WPos pEnv pW0 := Loop.wpos_fresh pEnv 1 [1, 2] _ (by decide) (by decide)
+example : Gen.assignSkip (⟨.good, 70, 70, .normal, 0⟩ : St) = false ∧ Gen.tooBig pEnv.opt ⟨.good, 70, 70, .normal, 0⟩ = false := by
+  decide
+example : ((Loop.cycles (fun x r => x * r / 10) pEnv pW0 [{ assign := [1, 2] }]).replicas,
+      (Loop.cycles (fun x r => x * r / 10) pEnv pW0 [{ assign := [1, 2] }]).shards.map
+        fun sh => (Loop.statusOf sh).map fun p => p.1) = (2, [[1], []]) ∧
+    ((Loop.cycles (fun x r => x * r / 10) pEnv pW0 [{ assign := [1, 2] }, { assign := [1, 2] }]).shards.map
+        fun sh => (Loop.statusOf sh).map fun p => p.1) = [[1], [2]] := by
+  decide
 
 end Kvass.Props.C06
